@@ -208,6 +208,36 @@ impl C20 {
                     }
                     expected.push((x.clone(), format!("{amt}/{:?}", Exp::from(&exp.unwrap_or_default()))));
                 }
+                // churn: every 5th allowance is fully revoked again, every 7th partially decreased, and the
+                // opposite-direction allowance exists for some pairs (the listing must show current items only)
+                let mut removed = 0;
+                for (i, x) in pick.iter().enumerate() {
+                    let (o, sp) = if by_owner { (hub.clone(), x.clone()) } else { (x.clone(), hub.clone()) };
+                    if i % 3 == 0 {
+                        let _ = c.exec(&sp, &t, &cw20::Cw20ExecuteMsg::IncreaseAllowance { spender: o.clone(), amount: Uint128::new(77), expires: None }, &[]);
+                    }
+                    if i % 5 == 1 {
+                        let r = c.exec(&o, &t, &cw20::Cw20ExecuteMsg::DecreaseAllowance { spender: sp.clone(), amount: Uint128::new(1_000_000), expires: None }, &[]);
+                        if r.is_ok() {
+                            expected.retain(|e| e.0 != *x);
+                            removed += 1;
+                        }
+                    } else if i % 7 == 2 {
+                        let r = c.exec(&o, &t, &cw20::Cw20ExecuteMsg::DecreaseAllowance { spender: sp.clone(), amount: Uint128::new(3), expires: None }, &[]);
+                        if r.is_ok() {
+                            for e in expected.iter_mut() {
+                                if e.0 == *x {
+                                    let amt = 10 + i as u128 - 3;
+                                    let tail = e.1.split_once('/').map(|p| p.1.to_string()).unwrap_or_default();
+                                    e.1 = format!("{amt}/{tail}");
+                                }
+                            }
+                        }
+                    }
+                }
+                if removed > 0 {
+                    h.out.count("listings_after_removals");
+                }
                 let cc = &c;
                 let hubr = &hub;
                 check_listing(
@@ -259,6 +289,21 @@ impl C20 {
                 }
                 for x in &extra {
                     let _ = c.exec(&admin, &sk, &cw1_subkeys::msg::ExecuteMsg::<Empty>::IncreaseAllowance { spender: x.clone(), amount: coin(3, "uatom"), expires: Some(cw_utils::Expiration::AtHeight(1003)) }, &[]);
+                }
+                if !perms {
+                    let mut removed = 0;
+                    for (i, x) in pick.iter().enumerate() {
+                        if i % 5 == 1 {
+                            let r = c.exec(&admin, &sk, &cw1_subkeys::msg::ExecuteMsg::<Empty>::DecreaseAllowance { spender: x.clone(), amount: coin(1_000_000, "uatom"), expires: None }, &[]);
+                            if r.is_ok() {
+                                expected.retain(|e| e.0 != *x);
+                                removed += 1;
+                            }
+                        }
+                    }
+                    if removed > 0 {
+                        h.out.count("listings_after_removals");
+                    }
                 }
                 if !extra.is_empty() {
                     h.out.count("listings_with_expired_entries_interleaved");
@@ -404,8 +449,26 @@ impl C20 {
                     Res::Ok(x) => x,
                     _ => return false,
                 };
+                let mut expected: Vec<(String, String)> = pick.iter().enumerate().map(|(i, x)| (x.clone(), (i as u64 % 6).to_string())).collect();
+                // churn: remove every 5th member, re-weight every 7th
+                c.advance(1, 5);
+                let remove: Vec<String> = pick.iter().enumerate().filter(|(i, _)| i % 5 == 1).map(|(_, x)| x.clone()).collect();
+                let add: Vec<Member> = pick.iter().enumerate().filter(|(i, _)| i % 7 == 2).map(|(_, x)| Member { addr: x.clone(), weight: 99 }).collect();
+                if !remove.is_empty() || !add.is_empty() {
+                    let r = c.exec(&owner, &g, &cw4_group::msg::ExecuteMsg::UpdateMembers { remove: remove.clone(), add: add.clone() }, &[]);
+                    if r.is_ok() {
+                        for m in &add {
+                            for e in expected.iter_mut() {
+                                if e.0 == m.addr {
+                                    e.1 = "99".into();
+                                }
+                            }
+                        }
+                        expected.retain(|e| !remove.contains(&e.0));
+                        h.out.count("listings_after_removals");
+                    }
+                }
                 let cc = &c;
-                let expected: Vec<(String, String)> = pick.iter().enumerate().map(|(i, x)| (x.clone(), (i as u64 % 6).to_string())).collect();
                 check_listing(
                     h,
                     name,
@@ -435,6 +498,17 @@ impl C20 {
                         return false;
                     }
                     expected.push((x.clone(), (amt / 10).to_string()));
+                }
+                c.advance(1, 5);
+                for (i, x) in pick.iter().enumerate() {
+                    if i % 5 == 1 {
+                        let amt = 10 + (i as u128 % 9) * 10;
+                        let r = c.exec(x, &st, &cw4_stake::msg::ExecuteMsg::Unbond { tokens: Uint128::new(amt) }, &[]);
+                        if r.is_ok() {
+                            expected.retain(|e| e.0 != *x);
+                            h.out.count("listings_after_removals");
+                        }
+                    }
                 }
                 let cc = &c;
                 check_listing(
@@ -503,7 +577,7 @@ impl Monitor for C20 {
         (LISTINGS.len() * SIZES.len()) as u64 + tier.pick(160, 60_000)
     }
     fn mandatory(&self) -> Vec<&'static str> {
-        let mut v = vec!["walks_completed", "walks_with_default_limit", "walks_with_limit_above_max", "walks_with_limit_zero", "states_with_more_than_30_items", "states_with_no_items", "listings_with_expired_entries_interleaved"];
+        let mut v = vec!["walks_completed", "walks_with_default_limit", "walks_with_limit_above_max", "walks_with_limit_zero", "states_with_more_than_30_items", "states_with_no_items", "listings_with_expired_entries_interleaved", "listings_after_removals"];
         v.extend([
             "listing_cw20.AllAccounts",
             "listing_cw20.AllAllowances",
@@ -528,7 +602,7 @@ impl Monitor for C20 {
         Some("all 16 listings x item counts {0,1,9,10,11,29,30,31,32,65} x limits {absent,0,1,2,3,7,10,11,29,30,31,100,u32::MAX}, every cursor taken from the previous page")
     }
     fn rule(&self) -> &'static str {
-        "for each of the 16 paginated listings of the suite a state with N items is built through the real execute messages inside the AppDriver (random address subsets so key order varies; subkeys allowances with ~40% expired entries interleaved), then the listing is walked to exhaustion with 13 different limits, always using the last returned key as cursor. Every page must have exactly min(limit|10, 30, remaining) items, keys strictly ordered (descending for ReverseProposals), the walk must equal the known item set, and every listed value must equal the point query. distinct = (listing, item count)"
+        "for each of the 16 paginated listings of the suite a state with N items is built through the real execute messages inside the AppDriver (random address subsets so key order varies; subkeys allowances with ~40% expired entries interleaved; allowances, subkey allowances, group and stake members are churned afterwards: every 5th item removed again, some re-weighted / partially decreased, opposite-direction allowances added), then the listing is walked to exhaustion with 13 different limits, always using the last returned key as cursor. Every page must have exactly min(limit|10, 30, remaining) items, keys strictly ordered (descending for ReverseProposals), the walk must equal the known item set, and every listed value must equal the point query. distinct = (listing, item count)"
     }
     fn assumptions(&self) -> Vec<&'static str> {
         vec!["item sets are the ones the harness created through execute messages (cross-checked with the point queries)", "a limit of 0 returns an empty page (nothing else is demanded for it)"]
